@@ -8,6 +8,7 @@ import (
 	"mltwist/internal/consoleui/verifsim/elfref"
 	"mltwist/internal/consoleui/verifsim/imggen"
 	"mltwist/internal/consoleui/verifsim/rvref"
+	"mltwist/pkg/expr"
 	"strings"
 )
 
@@ -223,7 +224,8 @@ func (p *policy) disCommand() string {
 	case 3:
 		return spaced(r, pick(r, "entrypoint", "entry"))
 	case 4:
-		pats := []string{"add", "x1", "Block", "ld", "^$", "0x", "x[0-9]+, x0", ".", "zzzz", "Block 1", "s[bhwd] ", "\\|", "[", "j", "beq|bne"}
+		pats := []string{"add", "x1", "Block", "ld", "^$", "0x", "x[0-9]+, x0", ".", "zzzz", "Block 1", "s[bhwd] ", "\\|", "[", "j", "beq|bne",
+			".*", "x*", "q?", "(add|sub|ld)", "[0-9A-F][0-9A-F] [0-9A-F][0-9A-F]", "Block [2-9]", "x3[01]?", "lw|ld|sd|sw"}
 		if r.Chance(1, 4) {
 			return spaced(r, pick(r, "find", "f", "/"), pick(r, pats...), pick(r, pats...))
 		}
@@ -235,6 +237,17 @@ func (p *policy) disCommand() string {
 			f := r.Intn(p.nLines)
 			d := r.Range(-3, 3)
 			from, to = fmt.Sprint(f), fmt.Sprint(f+d)
+		}
+		if r.Chance(1, 4) && p.s != nil { // block move: two header lines
+			var hdr []int
+			for i, row := range freshListing(p.s.ld.Code) {
+				if row.Kind == "header" {
+					hdr = append(hdr, i)
+				}
+			}
+			if len(hdr) >= 2 {
+				from, to = fmt.Sprint(hdr[r.Intn(len(hdr))]), fmt.Sprint(hdr[r.Intn(len(hdr))])
+			}
 		}
 		return spaced(r, pick(r, "move", "mv", "m"), from, to)
 	case 6:
@@ -289,9 +302,39 @@ func (p *policy) memCommand() string {
 func (p *policy) addressArg() string {
 	r := p.r
 	if r.Chance(1, 5) {
-		return pick(r, "5", "0", "x", "0x", "0b", "-1", "1_000", "0x1g", "08", "18446744073709551616", "0b12", "", "0xFFFFFFFFFFFFFFFF", "07", "00")
+		return pick(r, "5", "0", "x", "0x", "0b", "-1", "1_000", "0x1g", "08", "18446744073709551616", "0b12", "", "0xFFFFFFFFFFFFFFFF", "07", "00",
+			"0o17", "0O7", "0x_ff", "0x1_0", "0_7", "0b1_0", "+5", "0x-1", " 5", "1e3", "0x10000000000000000", "0b"+strings.Repeat("1", 65))
 	}
 	var a uint64
+	// addresses of memory that is really stored (begin, last byte, inside,
+	// just outside of a stored block of the live memory)
+	if p.s != nil && p.s.stat != nil && r.Chance(1, 2) {
+		if mem := p.s.stat.Mems[expr.Key(p.tr.memKey)]; mem != nil {
+			var ivs []uint64
+			core.Guard(func() {
+				for _, iv := range mem.Blocks().Intervals() {
+					ivs = append(ivs, uint64(iv.Begin()), uint64(iv.End()))
+				}
+			})
+			if len(ivs) > 0 {
+				k := 2 * r.Intn(len(ivs)/2)
+				b, e := ivs[k], ivs[k+1]
+				switch r.Intn(5) {
+				case 0:
+					a = b
+				case 1:
+					a = e - 1
+				case 2:
+					a = e
+				case 3:
+					a = b - 1
+				default:
+					a = b + uint64(r.Intn(int(e-b)))
+				}
+				return spellNumber(r, new(big.Int).SetUint64(a), false)
+			}
+		}
+	}
 	switch r.Intn(5) {
 	case 0:
 		a = uint64(0x10000 + r.Intn(0x200))
@@ -313,13 +356,19 @@ func (p *policy) valueAnswer(w int) string {
 		return pick(r, "", "1_0", "_", "0x", "abc", "0b2", "--1", "1 2", "0x_1", "12a", " 5", "5 ", "+5", "0o17", "09")
 	}
 	var v *big.Int
+	if r.Chance(1, 10) { // a pointer into the last bytes of the address space
+		return spellNumber(r, big.NewInt(int64(-1-r.Intn(40))), true)
+	}
 	switch r.Intn(6) {
 	case 0:
 		v = big.NewInt(0)
 	case 1:
 		v = big.NewInt(int64(-1 - r.Intn(300)))
-	case 2: // wider than the prompt
+	case 2: // wider than the prompt, either sign
 		v = new(big.Int).SetBytes(r.Bytes(w + r.Range(1, 9)))
+		if r.Bool() {
+			v.Neg(v)
+		}
 	case 3: // pointer into the data window
 		v = big.NewInt(int64(0x20000 + r.Intn(64)))
 	default:
@@ -361,6 +410,11 @@ func (p *policy) choose(o *Obs) Ev {
 			v = "mem"
 		}
 		emit(Ev{K: "render", V: v, N: r.Intn(41)})
+	}
+	if o.Kind == pCommand && (p.prop == "C32" || p.prop == "C30") && r.Chance(1, 3) {
+		// direct memory-view driver over a seeded memory (executed by the
+		// executor while the tool is quiescent)
+		emit(Ev{K: "memlab", N: r.Intn(1 << 30)})
 	}
 	if o.Kind == pCommand && p.pStream > 0 && r.Chance(1, 400) {
 		ev := Ev{K: "notty"}
@@ -433,6 +487,7 @@ func (p *policy) choose(o *Obs) Ev {
 // prints; the emitted trace contains only concrete events.
 func (e *Engine) Generate(r *core.Rand, prop string, tier string) core.Trace {
 	t := &Trace{Desc: genProgram(r)}
+	curTrace = t
 	ld, err := loadProgram(t.Desc)
 	if err != nil {
 		return t // executor reports the unloadable program as a probe
